@@ -127,6 +127,16 @@ add("C11", "fault_enumeration", "DESIGN.md §2 C11",
     "a crash/full disk/racing reader leaves a prefix of the writer's bytes (validated per directory by the write gate); "
     "directories are sampled, prefixes are exhaustive")
 
+add("C20", "fault_enumeration", "DESIGN.md §2 C20",
+    "Fault injection on the client file object: every write index of every response kind x protocol form x error class is "
+    "enumerated (plus Hypothesis-drawn response sizes); oracles: containment, log record under the failure's own class "
+    "with client address and protocol, no other exception class, file-descriptor census before == after",
+    "10 response kinds x 9 protocol forms x 3 error classes, each with every write index 0..n of the fault-free run made "
+    "the first failing call (~4k injected faults per quick run); 200 (quick) / 4000 (thorough) additional generated "
+    "document sizes and menu lengths. The fixed-site enumeration is complete; sizes are sampled.",
+    "a dead connection = a wfile whose k-th and later write() raise a fresh error instance; responses written by a child "
+    "process directly to the socket are not covered; /proc/self/fd is the descriptor census")
+
 NOT_APPLICABLE = []
 
 
